@@ -2900,6 +2900,9 @@ class Set(Collection):
                             % (safe_repr(phantoms.pop()), safe_repr(obj2), attr.name))
                     items -= setdata2
                     if setdata2.removed: items -= setdata2.removed
+                    if items and setdata2.is_fully_loaded and not attr.is_volatile: throw(UnrepeatableReadError,
+                        'Phantom object %s appeared in collection %s.%s'
+                        % (safe_repr(next(iter(items))), safe_repr(obj2), attr.name))
                     setdata2 |= items
                     reverse.db_reverse_add(items, obj2)
                     result.update(items)
